@@ -163,7 +163,15 @@ impl Check for C01 {
         }
         let pool = program_pool(&case.program);
         let preds = program_preds(&case.program);
-        let (h, t) = g::build_interp(&case.raw, &preds, &[], &pool);
+        let (mut h, mut t) = g::build_interp(&case.raw, &preds, &[], &pool);
+        // one interpretation in three is guided: the closure of the program over the random atoms, minus an atom
+        let selector: usize = case.raw.tuples.iter().flatten().flatten().map(|x| *x as usize).sum();
+        if selector % 3 == 0 {
+            if let Some((gh, gt)) = asp_ref::guided_pair(&case.program, &t, &preds, selector / 3) {
+                h = gh;
+                t = gt;
+            }
+        }
         let mut outcome: Option<Outcome> = None;
         let mut labels = vec![];
         let mut nontrivial = false;
